@@ -6,7 +6,8 @@
 From Coq Require Import List String Ascii Bool ZArith.
 From Helm Require Import Values.Tree Chart.Paths Chart.Archive Chart.Files Chart.Save Chart.Load Gen.Limits
   Chart.Wf Chart.LoadProofs Chart.AgreeProofs Chart.RecProofs Chart.Examples15
-  Chart.Ignore Chart.Utf8 Chart.Match Chart.MatchProofs Chart.IgnoreProofs.
+  Chart.Ignore Chart.Utf8 Chart.Match Chart.MatchProofs Chart.IgnoreProofs
+  Chart.Wf2 Chart.Rt2Proofs Chart.Examples15b.
 Import ListNotations.
 Local Open Scope string_scope.
 
@@ -307,3 +308,54 @@ Example C15_helmignore_excluded_ex :
     rules_ignore gmatch_ok ps "templates/deployment.yaml" false = false.
 Proof. exact ign_text_example. Qed.
 Print Assumptions C15_helmignore_excluded_ex.
+
+(* ---------- round trip through an archive, second version (load (save c), both in the model) ---------- *)
+(* wf2_tree (Chart/Wf2.v): every chart of the tree has metadata accepted by Validate and already
+   sanitised, a name usable as a directory, Values = what the raw values.yaml documents parse to, a
+   JSON schema, clean template names under templates/, and Files with clean names outside
+   templates/ and outside charts/ except provenance files directly in charts/; apiVersion v2 with no
+   reserved name among the files, or apiVersion v1 with the dependencies and the lock kept in
+   requirements.yaml / requirements.lock among the files such that LoadFiles' merge of these files
+   onto the Chart.yaml metadata (which Save writes without dependencies) gives back the metadata and
+   the lock (v1_fold); dependency names usable as directory names and pairwise different, IN ANY
+   ORDER.  Then Save succeeds, and if the archive fits the limits and the nesting fuel covers the
+   depth, loading it yields the tree with the dependencies of every chart in name order (norm) and
+   otherwise the same: metadata, lock, raw and parsed values, schema, templates, files (byte for
+   byte, same order, requirements.* and charts/*.prov included) at every node. *)
+Theorem C15_save_load_roundtrip :
+  forall (md_enc : meta -> string) (lock_enc : lockv -> string) (json_valid : string -> bool)
+         (sanitize : meta -> meta) (is_semver : string -> bool) (rest_valid : meta -> bool)
+         (md_merge : meta -> string -> option meta) (lock_dec : string -> option (option lockv))
+         (parse_values : string -> option val) (untar : string -> tstream) (maxt maxf : Z),
+  (forall m, validate sanitize is_semver rest_valid m = Some m -> md_merge empty_meta (md_enc m) = Some m) ->
+  (forall m, has_bom (md_enc m) = false) ->
+  (forall l, lock_dec (lock_enc l) = Some (Some l)) ->
+  (forall l, has_bom (lock_enc l) = false) ->
+  forall c : chart,
+  wf2_tree md_merge lock_dec parse_values json_valid sanitize is_semver rest_valid c -> nobom_tree c ->
+  exists es, save md_enc lock_enc json_valid sanitize is_semver rest_valid c = Some es /\
+    (fits maxt maxf es -> forall fuel, (depth c <= fuel)%nat -> exists c',
+       load_archive md_merge lock_dec parse_values untar sanitize is_semver rest_valid maxt maxf fuel
+                    (mkTS false es false) = inr c' /\
+       same_tree (norm c) c').
+Proof. exact save_load_roundtrip. Qed.
+Print Assumptions C15_save_load_roundtrip.
+
+(* a codec in which requirements.yaml carries the dependencies; a v1 chart "legacy" with
+   requirements.yaml, requirements.lock, charts/dep-a-0.1.0.tgz.prov and the dependencies dep-b,
+   dep-a (in this order) meets the hypotheses; its round trip on the model: lock and dependency
+   metadata are back, the files are back in order, the dependencies come back as dep-a, dep-b *)
+Example C15_save_load_roundtrip_ex :
+  ((forall m, validate sanK semverK restU m = Some m -> mergeU empty_meta (encU m) = Some m) /\
+   (forall m, has_bom (encU m) = false) /\
+   (forall l, lock_decK (lock_encK l) = Some (Some l)) /\
+   (forall l, has_bom (lock_encK l) = false)) /\
+  (wf2_tree mergeU lock_decK parseK jsonK sanK semverK restU c_v1 /\ nobom_tree c_v1 /\ depth c_v1 = 2%nat /\
+   map dname (c_deps c_v1) = ["dep-b"; "dep-a"] /\ map dname (c_deps (norm c_v1)) = ["dep-a"; "dep-b"]) /\
+  exists es, save encU lock_encK jsonK sanK semverK restU c_v1 = Some es /\ fits 1000 100 es /\
+    exists c', load_archive mergeU lock_decK parseK untarK sanK semverK restU 1000 100 2 (mkTS false es false) = inr c'
+               /\ chart_eqb (norm c_v1) c' = true /\ c_lock c' = Some "digest" /\
+               m_deps (c_meta c') = "[dep-b,dep-a]" /\ map dname (c_deps c') = ["dep-a"; "dep-b"] /\
+               map f_name (c_files c') = ["requirements.yaml"; "README.md"; "requirements.lock"; "charts/dep-a-0.1.0.tgz.prov"].
+Proof. exact save_load_example. Qed.
+Print Assumptions C15_save_load_roundtrip_ex.
